@@ -316,6 +316,7 @@ class ParamsGenerator:
     rewriting_transformations = (
         _QuantTrans.QUANTIZE_TENSOR,
         _QuantTrans.ADD_DEQUANTIZE,
+        _QuantTrans.EMULATED_SUBCHANNEL,
     )
     buffer_referents = collections.Counter(
         tensor.buffer
